@@ -539,3 +539,31 @@ macro_rules! c11_request {
         }
     };
 }
+
+
+/// C11: a request with a long (concrete) file name: the encoding keeps every byte (no silent cap at the
+/// 512-byte request size), ends with the NUL of the last option value, and has the RFC length.
+macro_rules! c11_long {
+    ($name:ident, $kind:expr, $flen:expr, $unw:expr) => {
+        #[kani::proof]
+        #[kani::unwind($unw)]
+        #[kani::stub(std::fmt::format, fmt_stub)]
+        fn $name() {
+            let f = unsafe { String::from_utf8_unchecked(vec![b'a'; $flen]) };
+            let m = String::from("octet");
+            let options = vec![TransferOption { option: OptionType::BlockSize, value: 8 }];
+            let p = if $kind == 1 { Packet::Rrq { filename: f, mode: m, options } } else { Packet::Wrq { filename: f, mode: m, options } };
+            let bytes = p.serialize().unwrap();
+            let want = 2 + $flen + 1 + 5 + 1 + 7 + 1 + 1 + 1;
+            assert!(bytes.len() == want, "C11 layout: long request is not encoded in full (length differs from the RFC layout)");
+            if bytes.len() == want {
+                assert!(bytes[0] == 0 && bytes[1] == $kind, "C11 layout: opcode");
+                assert!(bytes[2] == b'a' && bytes[2 + $flen - 1] == b'a' && bytes[2 + $flen] == 0, "C11 layout: file name bytes / terminator");
+                assert!(bytes[want - 1] == 0 && bytes[want - 2] == b'8' && bytes[want - 3] == 0, "C11 layout: option value / final NUL");
+            }
+            kani::cover!(true, "witness: long request encoded");
+            std::mem::forget(bytes);
+            std::mem::forget(p);
+        }
+    };
+}
